@@ -6,18 +6,21 @@ import os
 from gen import exprs
 from gen.rng import Rng
 from lib import prectable
-from lib.vlib import ROOT, Check, check_props, coq_eval_many, coq_result, vh
+from lib.vlib import ROOT, Check, check_props, coq_eval_many, coq_make, coq_result, vh
 
 PID = 'C08'
 WIDTHS = [1, 20, 40, 80, 100, 200]
 CLASS_ID = {'K1': 'C08-K1-commutative-shortcut', 'K2': 'C08-K2-unary-under-unary', 'K3': 'C08-K3-concat-precedence',
-            'K4': 'C08-K4-string-quote', 'K5': 'C08-K5-int-2147483648'}
+            'K4': 'C08-K4-string-quote', 'K5': 'C08-K5-int-2147483648', 'K6': 'C08-K6-field-access-before-less-than',
+            'K7': 'C08-K7-import-sorting-rebinds-name'}
 WITNESS = {
     'K1': 'class Main {\n  function main(): int = a * (b / c)\n}\n',
     'K2': 'class Main {\n  function main(): bool = !(!x)\n}\n',
     'K3': 'class Main {\n  function main(): Str = (a + b) :: c\n}\n',
     'K4': 'class Main {\n  function main(): Str = "say \\"hi\\""\n}\n',
     'K5': 'class Main {\n  function main(): int = 1 + 2147483648\n}\n',
+    'K6': 'class Main {\n  function main(): bool = (a.b) < c\n}\n',
+    'K7': 'import { Foo } from b.B\nimport { Foo } from a.A\nclass Main {\n  function main(x: Foo): unit = {  }\n}\n',
 }
 HEADER = ('From Coq Require Import List Arith Bool NArith. Import ListNotations.\n'
           'From SV Require Import C08.Syntax C08.Model C08.Layout C08.Lit C08.Corr.\n')
@@ -258,21 +261,46 @@ def report(ck, cls, what, input_, expected=None, observed=None):
 
 # ----------------------------------------------------------------------------------------------------------------------
 
-def enclosing_expr(dump, path):
-    """deepest expression node of `dump` on the way down `path`"""
-    node, best = dump, None
-    for part in [p for p in path.split('#')[0].split('/') if p != '']:
-        if isinstance(node, list) and node and isinstance(node[0], str) and node[0] in ('bin', 'un', 'field', 'method', 'call', 'tuple',
-                                                                                     'if', 'match', 'lambda', 'block', 'int', 'str', 'bool',
-                                                                                     'id', 'cid'):
-            best = node
+EXPR_TAGS = ('bin', 'un', 'field', 'method', 'call', 'tuple', 'if', 'match', 'lambda', 'block', 'int', 'str', 'bool', 'id', 'cid')
+
+
+def enclosing_exprs(dump, path):
+    """expression nodes of `dump` on the way down `path`, outermost first"""
+    node, found = dump, []
+    parts = [p for p in path.split('#')[0].split('/') if p != '']
+    for part in parts + [None]:
+        if isinstance(node, list) and node and isinstance(node[0], str) and node[0] in EXPR_TAGS:
+            found.append(node)
+        if part is None:
+            break
         try:
             node = node[int(part)] if isinstance(node, list) else node[part]
         except (KeyError, IndexError, ValueError, TypeError):
             break
-    if isinstance(node, list) and node and isinstance(node[0], str) and node[0] in ('bin', 'un'):
-        best = node
-    return best
+    return found
+
+
+def local_classes(table, dump, path):
+    """classes of the smallest expression containing the difference, and of the node just above it"""
+    found = enclosing_exprs(dump, path)
+    out = set()
+    if found:
+        out |= exprs.tree_classes(table, found[-1])
+        if len(found) > 1:
+            out |= exprs.node_classes(table, found[-2])
+    return out
+
+
+def import_rebinding(dump_text):
+    """K7: two import lines bind the same name"""
+    import re
+    names = re.findall(r'import\s*\{([^}]*)\}', dump_text)
+    seen, dup = set(), False
+    for group in names:
+        for n in [x.strip() for x in group.split(',') if x.strip()]:
+            dup = dup or n in seen
+            seen.add(n)
+    return dup
 
 
 def monitor_modules(ck, table, mods, tag, typecheck=False):
@@ -291,7 +319,11 @@ def monitor_modules(ck, table, mods, tag, typecheck=False):
         classes = exprs.tree_classes(table, r['dump'])
         if any(l == ['int', '2147483648'] for l in r.get('literals', [])):
             classes.add('K5')
+        if import_rebinding(text):
+            classes.add('K7')
         ck.count(tag + ': syntactically valid')
+        if typecheck:
+            ck.count(tag + (': type-checks' if r.get('typecheck_errors') == 0 else ': has type errors'))
         ck.count(tag + (': in a known class' if classes else ': outside the known classes'))
         ck.case({'module': text}, nontrivial=len(text) > 60)
         for o in r['out']:
@@ -301,13 +333,15 @@ def monitor_modules(ck, table, mods, tag, typecheck=False):
                 problem = 'formatter or parser panicked on formatter input/output: ' + str(o.get('print_panic') or o.get('reparse_panic'))[:200]
             elif o['reparse_errors'] > 0:
                 problem = 'formatted output has syntax errors: ' + o.get('reparse_messages', '')[:200]
-                cls = next((c for c in ('K2', 'K4') if c in classes), None) or next(iter(sorted(classes)), None)
+                cls = next((c for c in ('K2', 'K4', 'K6') if c in classes), None)
             elif not o['same_tree']:
                 problem = 'formatted output parses to a different tree at %s: %s -> %s' % (
                     o['diff']['path'], json.dumps(o['diff']['before'])[:120], json.dumps(o['diff']['after'])[:120])
-                node = enclosing_expr(r['dump'], o['diff']['path'])
-                local = exprs.tree_classes(table, node) if node is not None else set()
-                cls = next((c for c in ('K1', 'K3', 'K4', 'K2') if c in local), None)
+                local = local_classes(table, r['dump'], o['diff']['path'])
+                cls = next((c for c in ('K1', 'K3', 'K4', 'K2', 'K6') if c in local), None)
+                if cls is None and 'K7' in classes and isinstance(o['diff']['before'], str) and isinstance(o['diff']['after'], str) \
+                        and o['diff']['path'].split('/')[-1] == '1':
+                    cls = 'K7'
             elif not o['literals_same']:
                 problem = 'literal text changed: %s' % json.dumps(o.get('literal_diff'))[:200]
                 cls = 'K5' if 'K5' in classes else ('K4' if 'K4' in classes else None)
@@ -389,6 +423,9 @@ def run(tier, seed, replay=None):
         ck.obligation('precedence table regenerated from the real code', False, str(e)[:300])
         return ck.finish()
     check_props(ck, 'theories/C08/Props.v', extra_deps=['generated'])
+    rc, out = coq_make(['theories/C08/Corr.vo'])
+    if rc != 0:
+        ck.obligation('C08/Corr.v builds', False, out[-500:])
     quick = tier == 'quick'
     rng = Rng(seed ^ 0xC08)
 
